@@ -50,21 +50,92 @@ func resultOf(f func() (string, error)) (out string) {
 
 var fullPlan = simio.Plan{TruncAt: -1, ErrAt: -1}
 
+// sharedBuf / sharedReader: one buffer and one binary.Reader shared by the operations of a run.
+var (
+	sharedBuf    *simio.GrowingReaderAt
+	sharedReader valueReader
+)
+
+// valueReader is what binary.NewReader returns, whatever its concrete type.
+type valueReader interface {
+	ReadValue(t wire.Type, off int64) (wire.Value, int64, error)
+}
+
+func asValueReader[T any](x T) valueReader {
+	if vr, ok := any(x).(valueReader); ok {
+		return vr
+	}
+	return any(&x).(valueReader)
+}
+
+// failingEnveloper is a reply whose body cannot be encoded.
+type failingEnveloper struct{}
+
+func (failingEnveloper) MethodName() string              { return "f" }
+func (failingEnveloper) EnvelopeType() wire.EnvelopeType { return wire.Reply }
+func (failingEnveloper) Encode(sw stream.Writer) error {
+	sw.WriteStructBegin()
+	return errors.New("the reply's body does not encode")
+}
+
 // forcedOp >= 0: every operation of the run is of this kind (the callers then contend for
 // the same pools and meet the same code paths at the same time).
 var forcedOp = -1
 
 // genCodecOp draws an operation and its private input.
 func genCodecOp() codecOp {
-	nk := 12
+	nk := 14
 	if len(registry.Types) == 0 {
-		nk = 8
+		nk = 10
 	}
 	op := ch("c18.op", nk)
 	if forcedOp >= 0 {
 		op = forcedOp % nk
 	}
 	switch op {
+	case 8:
+		// several callers decode their own records through ONE binary.Reader over a shared buffer
+		t := genType()
+		rec := ref.Encode(nil, genVal(t, 0, genOpts{maxDepth: 3}))
+		if sharedBuf == nil {
+			sharedBuf = &simio.GrowingReaderAt{}
+			sharedReader = asValueReader(tbinary.NewReader(sharedBuf))
+		}
+		off := sharedBuf.Append(rec)
+		rd := sharedReader
+		return codecOp{"ReadValue through a shared Reader", func() string {
+			return resultOf(func() (string, error) {
+				w, end, err := rd.ReadValue(wire.Type(t), off)
+				if err != nil {
+					return "", err
+				}
+				v, err := refwire.Force(w)
+				if err != nil {
+					return "", err
+				}
+				return fmt.Sprintf("%d %x", end-off, ref.Encode(nil, v)), nil
+			})
+		}}
+	case 9:
+		// a reply whose body fails to encode, then (by the same caller) an ordinary one
+		req := genRequest()
+		b := req.encode()
+		reply := genVal(ref.TStruct, 0, genOpts{maxDepth: 2})
+		return codecOp{"ReadRequest+failing WriteResponse+WriteResponse", func() string {
+			return resultOf(func() (string, error) {
+				r, _ := simio.NewReader(b, fullPlan)
+				rw, err := tbinary.Default.ReadRequest(context.Background(), wire.EnvelopeType(req.Type), r, &genericBody{})
+				if err != nil {
+					return "", err
+				}
+				werr := rw.WriteResponse(wire.Reply, simio.NewWriter(-1), failingEnveloper{})
+				w := simio.NewWriter(-1)
+				if err := rw.WriteResponse(wire.Reply, w, &genericEnveloper{Body: reply}); err != nil {
+					return "", err
+				}
+				return fmt.Sprintf("%v | %x", werr != nil, w.Buf), nil
+			})
+		}}
 	case 6:
 		// random-access request API: DecodeRequest + the responder it returns
 		req := genRequest()
@@ -366,9 +437,10 @@ func c18Codec(res *world.Result, s *simrt.Sim, logf func(string, ...interface{})
 	// text of an error can name whichever invalid map entry the walk meets first: the walk order of
 	// a map must therefore be a function of the map (sorted or reverse), not drawn per walk.
 	s.SetMapOrder(simrt.MapOrder(ch("c18.codec-map-order", 2)))
+	sharedBuf, sharedReader = nil, nil
 	forcedOp = -1
 	if simrt.Flip("c18.same-op", 0.3) {
-		forcedOp = ch("c18.same-op-kind", 12)
+		forcedOp = ch("c18.same-op-kind", 14)
 	}
 	defer func() { forcedOp = -1 }()
 	ops := make([]codecOp, K)
